@@ -14,6 +14,7 @@ int cmd_attack_table(const Args&);
 int cmd_kpk_table(const Args&);
 int cmd_hashtable_replay(const Args&);
 int cmd_order_replay(const Args&);
+int cmd_score_table(const Args&);
 int cmd_nearmate_pool(const Args&);
 int cmd_scripted_engine(const Args&);
 int cmd_referee_games(const Args&);
@@ -54,6 +55,7 @@ int main(int argc, char** argv)
     if (cmd == "kpk-table") return vh::cmd_kpk_table(a);
     if (cmd == "hashtable-replay") return vh::cmd_hashtable_replay(a);
     if (cmd == "order-replay") return vh::cmd_order_replay(a);
+    if (cmd == "score-table") return vh::cmd_score_table(a);
     if (cmd == "nearmate-pool") return vh::cmd_nearmate_pool(a);
     if (cmd == "scripted-engine") return vh::cmd_scripted_engine(a);
     if (cmd == "referee-games") return vh::cmd_referee_games(a);
